@@ -10,16 +10,19 @@
    the clause that fails.  Clauses that ARE the listed properties (C02: training set disjoint from the held-out
    fold; C09: merge list = files just written) are marked "P:"; the others are model-conformance clauses ("D:",
    reported as DRIFT by the drivers, never as a violation). *)
-EXTENDS Integers, Sequences, FiniteSets, FiniteSetsExt, TLC, TLCExt, Json, IOUtils
+EXTENDS Integers, Sequences, SequencesExt, FiniteSets, FiniteSetsExt, TLC, TLCExt, Json, IOUtils
 Traces == JsonDeserialize(IOEnv.TRACES_FILE)
-VARIABLES tid, l, folds, sizes, testIdx, haveIdx, nTrain, predSeen, written, failedAt
-vars == <<tid, l, folds, sizes, testIdx, haveIdx, nTrain, predSeen, written, failedAt>>
+VARIABLES tid, l, folds, sizes, testIdx, haveIdx, nTrain, predSeen, written, failedAt,
+          fit,      \* thread -> state of the Model.fit running on it (ModelFit.tla: Start / FitEstimator / Relabel / Done)
+          buf       \* buffered writer -> [app, wr, size, fin] (TabularWrite.tla: Append / Flush / Finalize)
+vars == <<tid, l, folds, sizes, testIdx, haveIdx, nTrain, predSeen, written, failedAt, fit, buf>>
 T == Traces[tid]
 E == T.events[l]
 SeqSet(s) == {s[i] : i \in 1..Len(s)}
 SumSeq(s) == FoldSet(LAMBDA i, a : a + s[i], 0, 1..Len(s))
 Init == /\ tid \in 1..Len(Traces) /\ l = 1 /\ folds = 0 /\ sizes = <<>> /\ testIdx = <<>> /\ haveIdx = FALSE /\ nTrain = 0
         /\ predSeen = <<>> /\ written = <<>> /\ failedAt = <<>>
+        /\ fit = <<>> /\ buf = <<>>
 More == l <= Len(T.events) /\ failedAt = <<>>
 \* ---- per-event obligations: a set of failed clause names ----
 SplitBad ==
@@ -65,9 +68,68 @@ MergeBad ==
    (IF Len(written) = (E.rows + E.chunk - 1) \div E.chunk THEN {} ELSE {"D:MergeList.chunk_count"})
 LevelBad ==
    (IF E.seen <= E.psms THEN {} ELSE {"D:LevelDone.more_entities_than_psms"})
+\* ---- Model.fit (one training per thread at a time) ----
+NoFit == [n |-> 0, nt |-> 0, nd |-> 0, pos |-> 0, neg |-> 0, it |-> -1, maxit |-> 0, fed |-> FALSE]
+FitOf(th) == IF th \in DOMAIN fit THEN fit[th] ELSE NoFit
+FitStartBad ==
+   (IF E.n = E.n_target + E.n_decoy THEN {} ELSE {"D:FitStart.counts"}) \cup
+   (IF E.start_neg = E.n_decoy THEN {} ELSE {"P:FitStart.negatives_are_not_exactly_the_decoys"}) \cup
+   (IF E.start_pos >= 1 /\ E.start_pos <= E.n_target THEN {} ELSE {"P:FitStart.positives_not_among_targets"})
+FitIterBad ==
+   LET F == FitOf(E.th) IN
+   (IF F.maxit > 0 /\ E.it = F.it + 1 /\ E.it < F.maxit /\ ~F.fed THEN {} ELSE {"D:FitIter.order"}) \cup
+   (IF E.fed = E.fed_pos + E.fed_neg THEN {} ELSE {"P:FitIter.unlabelled_rows_fed"}) \cup
+   (IF F.maxit = 0 \/ E.fed_pos = F.pos THEN {} ELSE {"P:FitIter.positives_not_the_accepted_targets"}) \cup
+   (IF F.maxit = 0 \/ E.fed_neg = F.nd THEN {} ELSE {"P:FitIter.negatives_not_the_decoys"})
+FitLabelsBad ==
+   LET F == FitOf(E.th) IN
+   (IF F.maxit > 0 /\ E.it = F.it /\ F.fed THEN {} ELSE {"D:FitLabels.order"}) \cup
+   (IF F.maxit = 0 \/ E.pos + E.neg + E.zero = F.n THEN {} ELSE {"P:FitLabels.rows_lost"}) \cup
+   (IF F.maxit = 0 \/ E.neg = F.nd THEN {} ELSE {"P:FitLabels.negatives_are_not_exactly_the_decoys"}) \cup
+   (IF F.maxit = 0 \/ E.pos <= F.nt THEN {} ELSE {"P:FitLabels.positives_not_among_targets"})
+FitDoneBad ==
+   LET F == FitOf(E.th) IN
+   (IF F.maxit = 0 \/ (E.iters = F.maxit /\ F.it = F.maxit - 1 /\ ~F.fed) THEN {} ELSE {"P:FitDone.before_the_last_iteration"})
+\* ---- buffered writer ----
+NoBuf == [app |-> 0, wr |-> 0, size |-> 0, fin |-> FALSE]
+BufOf(w) == IF w \in DOMAIN buf THEN buf[w] ELSE NoBuf
+BufAppendBad ==
+   LET B == BufOf(E.w) IN
+   (IF ~B.fin THEN {} ELSE {"D:BufAppend.after_finalize"}) \cup
+   (IF E.buffered = B.app - B.wr + E.rows THEN {} ELSE {"P:BufAppend.buffer_is_not_old_rows_plus_new_rows"})
+BufWriteBad ==
+   LET B == BufOf(E.w) IN
+   (IF E.buffered = B.app - B.wr THEN {} ELSE {"P:BufWrite.buffer_is_not_the_unwritten_rows"}) \cup
+   (IF E.rows >= 1 /\ E.rows <= B.app - B.wr THEN {} ELSE {"P:BufWrite.more_rows_than_buffered"}) \cup
+   (IF B.size = 0 \/ E.rows <= B.size THEN {} ELSE {"D:BufWrite.larger_than_buffer_size"})
+BufFinalizeBad ==
+   LET B == BufOf(E.w) IN
+   (IF E.left = 0 /\ B.app = B.wr THEN {} ELSE {"P:BufFinalize.rows_not_written"})
+\* ---- PIN parsing: column chunks of the missing-value scan ----
+Flat(ss) == FoldLeft(LAMBDA a, c : a \o c, <<>>, ss)
+ColumnChunksBad ==
+   LET all == Flat(E.chunks)  ids == SeqSet(E.ids) IN
+   (IF \A i \in 1..Len(E.features) : \E c \in 1..Len(E.chunks) : E.features[i] \in SeqSet(E.chunks[c])
+      THEN {} ELSE {"P:ColumnChunks.feature_never_scanned_for_missing_values"}) \cup
+   (IF \E c \in 1..Len(E.chunks) : ids \subseteq SeqSet(E.chunks[c]) THEN {} ELSE {"P:ColumnChunks.identifier_columns_split"}) \cup
+   (IF all = E.features \o E.ids THEN {} ELSE {"D:ColumnChunks.order"}) \cup
+   (IF \A c \in 1..Len(E.chunks) : Len(E.chunks[c]) >= 1 /\ (Len(E.chunks[c]) <= E.chunk_size \/ E.chunks[c] = E.ids) THEN {} ELSE {"D:ColumnChunks.size"})
+PinParsedBad ==
+   LET dropped == SeqSet(E.dropped) IN
+   (IF E.kept = SelectSeq(E.features, LAMBDA c : c \notin dropped) THEN {} ELSE {"P:PinParsed.features_not_the_columns_without_missing_values"})
+CliPlanBad ==
+   LET single == E.aggregate \/ Len(E.stems) = 1 IN
+   (IF Len(E.prefixes) = Len(E.stems) THEN {} ELSE {"D:CliPlan.one_prefix_per_file"}) \cup
+   (IF Len(E.prefixes) # Len(E.stems) THEN {} ELSE
+    IF \A i \in 1..Len(E.stems) : E.prefixes[i] = (IF single THEN "" ELSE E.stems[i]) THEN {} ELSE {"D:CliPlan.prefix_rule"}) \cup
+   (IF E.ndatasets = Len(E.stems) THEN {} ELSE {"D:CliPlan.one_dataset_per_file"})
 Bad == CASE E.ev = "Split" -> SplitBad [] E.ev = "TrainSet" -> TrainBad [] E.ev = "ModelsSorted" -> SortedBad
          [] E.ev = "PredictChunk" -> PredictBad [] E.ev = "Decision" -> DecisionBad [] E.ev = "ChunkWritten" -> ChunkBad
-         [] E.ev = "MergeList" -> MergeBad [] E.ev = "LevelDone" -> LevelBad [] OTHER -> {}
+         [] E.ev = "MergeList" -> MergeBad [] E.ev = "LevelDone" -> LevelBad
+         [] E.ev = "FitStart" -> FitStartBad [] E.ev = "FitIter" -> FitIterBad [] E.ev = "FitLabels" -> FitLabelsBad
+         [] E.ev = "FitDone" -> FitDoneBad [] E.ev = "BufAppend" -> BufAppendBad [] E.ev = "BufWrite" -> BufWriteBad
+         [] E.ev = "BufFinalize" -> BufFinalizeBad [] E.ev = "ColumnChunks" -> ColumnChunksBad
+         [] E.ev = "PinParsed" -> PinParsedBad [] E.ev = "CliPlan" -> CliPlanBad [] OTHER -> {}
 \* ---- one step: consume event l ----
 Step ==
   /\ More
@@ -85,6 +147,17 @@ Step ==
                  ELSE IF E.ev = "Decision" THEN <<>> ELSE predSeen
   /\ written' = IF E.ev = "ChunkWritten" THEN Append(written, [name |-> E.name, read |-> E.read])
                 ELSE IF E.ev = "MergeList" THEN <<>> ELSE written
+  /\ fit' = IF E.ev = "FitStart"
+               THEN (E.th :> [n |-> E.n, nt |-> E.n_target, nd |-> E.n_decoy, pos |-> E.start_pos, neg |-> E.start_neg,
+                              it |-> -1, maxit |-> E.max_iter, fed |-> FALSE]) @@ fit
+             ELSE IF E.ev = "FitIter" THEN (E.th :> [FitOf(E.th) EXCEPT !.it = E.it, !.fed = TRUE]) @@ fit
+             ELSE IF E.ev = "FitLabels" THEN (E.th :> [FitOf(E.th) EXCEPT !.pos = E.pos, !.neg = E.neg, !.fed = FALSE]) @@ fit
+             ELSE IF E.ev = "FitDone" THEN (E.th :> NoFit) @@ fit
+             ELSE fit
+  /\ buf' = IF E.ev = "BufAppend" THEN (E.w :> [BufOf(E.w) EXCEPT !.app = @ + E.rows, !.size = E.size]) @@ buf
+             ELSE IF E.ev = "BufWrite" THEN (E.w :> [BufOf(E.w) EXCEPT !.wr = @ + E.rows]) @@ buf
+             ELSE IF E.ev = "BufFinalize" THEN (E.w :> [BufOf(E.w) EXCEPT !.fin = TRUE]) @@ buf
+             ELSE buf
   /\ UNCHANGED tid
 Spec == Init /\ [][Step]_vars
 Terminal == ~More
